@@ -40,13 +40,20 @@ def st_case(draw) -> Dict[str, Any]:
                 pairs.append([["link", li, w1], ["rel", mode, w2]])
             else:
                 pairs.append([draw(pos), draw(pos)])
-    return {"net": net, "graph": g, "pairs": pairs}
+    # the location resolution is configuration (sim_h3_resolution, default 15): coarser grids put the two ends of short
+    # links into one cell
+    return {"net": net, "graph": g, "pairs": pairs, "res": draw(st.sampled_from([15, 15, 15, 13, 12])) if net != "hav" else 15}
 
 
 def network_for(case):
-    from hv.props.c06 import network_for as nf
+    res = case.get("res", 15)
+    if case["net"] == "hav":
+        from nrel.hive.model.roadnetwork.haversine_roadnetwork import HaversineRoadNetwork
 
-    return nf(case)
+        return HaversineRoadNetwork()
+    if case["net"] == "denver":
+        return graphs.denver_network(res=res)
+    return graphs.build_network(case["graph"], res=res)
 
 
 def resolve_pair(rn, case, o_spec, d_spec):
